@@ -80,6 +80,23 @@ package attribute
 //@   trusted "reads the reflect-built storage"
 //@   ensures fresh(s) && len(s) == ite(l == nil, 0, setLen(l.equivalent)) && (forall i in 0 .. len(s) : s[i] == setAt(l.equivalent, i))
 
+// Value (binary search through reflect and sort.Search): the storage access and the search itself are outside the contracts
+// (reflect.Value and the sort.Search callback are not modelled); what is decided is the shape of the answer around them - "not found"
+// without searching only for a nil or empty-storage set, whatever the key; a hit only when the key at the position found equals
+// the key asked for, and then with that attribute's value; a miss otherwise
+//@ func (l *Set) Value(k Key) (v Value, ok bool)
+//@   prop C05
+//@   unchecked no-panic,frame reflect-built storage read through reflect.Value; sort.Search with a callback
+//@   ensures l == nil ==> !ok
+//@   assert@return#1 : (l == nil || l.equivalent.iface == nil) && !$ret1
+//@   assert@return#2 : idx >= vlen && !$ret1
+//@   assert@return#3 : idx < vlen && k == keyValue.Key && $ret1 && $ret0 == keyValue.Value
+//@   assert@return#4 : idx < vlen && k != keyValue.Key && !$ret1
+//@ func (l *Set) HasValue(k Key) (ok bool)
+//@   prop C05
+//@   unchecked no-panic,frame calls Value
+//@   ensures l == nil ==> !ok
+
 // Filter: the original set is unaltered (frame: nothing that existed before the call is written), the result holds
 // exactly the attributes satisfying re, the rest is returned as dropped, nothing is lost.
 //@ func (l *Set) Filter(re Filter) (r Set, dropped []KeyValue)
